@@ -113,8 +113,14 @@ class ConcreteProvider:
             self.assume_failed = True
         return v
 
-    def int(self, name, lo=-1000, hi=1000):
-        return int(self._get(name, lambda: self.rng.randint(lo, hi)))
+    def int(self, name, lo=None, hi=None):
+        def gen():
+            if lo is None and hi is None and self.rng.random() < 0.3:
+                # ids are arbitrary integers: also huge ones that no double represents exactly
+                return self.rng.choice([-1, 1]) * (2 ** 53 + 1 + 2 * self.rng.randint(0, 2 ** 20))
+            return self.rng.randint(-1000 if lo is None else lo, 1000 if hi is None else hi)
+
+        return int(self._get(name, gen))
 
     def distinct(self, xs):
         if len(set(xs)) != len(xs):
